@@ -97,11 +97,16 @@ def check(acc, prog, sseed, lseed, mode, name, sample=False):
     if c is None:
         return
     cm = compiled_marks(c)
+    # (a name may be written at several places, also with other coordinates: a compiled parameter must carry the values of one
+    # of the listed literals of its name)
+    listed_values = {}
     for m in marks:
-        for off, i, p in cm.get(m.name, []):
+        listed_values.setdefault(m.name, set()).add((m.x_offset, m.y_offset, m.x_relative, m.y_relative))
+    for nm, vals in listed_values.items():
+        for off, i, p in cm.get(nm, []):
             acc.count("paired_with_compiled_param")
-            if (p.x_offset, p.y_offset, p.x_relative, p.y_relative) != (m.x_offset, m.y_offset, m.x_relative, m.y_relative):
-                acc.violation(gsig("listing-differs-from-compiled-parameter"), {"name": m.name}, inp)
+            if (p.x_offset, p.y_offset, p.x_relative, p.y_relative) not in vals:
+                acc.violation(gsig("listing-differs-from-compiled-parameter"), {"name": nm}, inp)
                 return
     # edit clause
     listed = {}
